@@ -1,6 +1,18 @@
 import Bpmn.Props.C19
 import Bpmn.Props.C19Current
 open Bpmn.Props.C19
-#print axioms C19_holds
+#print axioms C19_holds_partial
+#print axioms C19_counterexample_activity_not_stored
+#print axioms process_wellformed
+#print axioms activity_not_stored_dangling
+#print axioms duplicate_generated_id_witness
 #print axioms waypoints_on_borders
+#print axioms layoutProcess_ok
+#print axioms layout_ok
+#print axioms layout_no_overlap
+#print axioms layoutOk_of_wellformed
 #print axioms current_sizes
+#print axioms current_defaults_cover_sizes
+#print axioms current_default_layout_no_overlap
+#print axioms current_stored_types
+#print axioms current_id_source_found
